@@ -28,7 +28,12 @@ UNIVERSES = {
 # prices of the order of 1e-6 with multipliers of the order of 1e8 (explored with quotes scaled by MICRO): the same
 # account values as "spot1+fut", but every absolute price move is far below any absolute tolerance an implementation might use
 MICRO = 2.0 ** -26
-MICRO_UNIVERSE = {"micro": (("SM", 2.0 ** 26, 1.0, 0.0), ("FM", 2.0 ** 27, 0.0, 0.25))}
+# "penny": prices of the order of 1e-3 with ordinary multipliers, so weight targets hold tens of millions of units and a
+# contract-count target then cuts such a position, in ONE trade, to a remainder that is tiny RELATIVE to the traded size
+PENNY = 2.0 ** -16
+MICRO_UNIVERSE = {"micro": (("SM", 2.0 ** 26, 1.0, 0.0), ("FM", 2.0 ** 27, 0.0, 0.25)),
+                  "penny": (("PS", 1.0, 1.0, 0.0), ("PF", 2.0, 0.0, 0.25))}
+UNIT_SCALE = {"micro": MICRO, "penny": PENNY}
 FEES = [(0.0, 0.0), (1.0, 1.0 / 64), (1.0, 0.0), (0.0, 1.0 / 64), (2.0, 1.0 / 128), (0.0, 0.0002),
         (512.0, 0.0)]     # a fixed fee larger than the value of a few lots: such trades are still due
 BASE_QUOTES = [(100.0, 100.0), (100.0, 104.0), (92.0, 96.0), (112.0, 112.0), (48.0, 52.0)]
@@ -50,7 +55,7 @@ def palette():
 
 def unit_scale(universe, scale):
     """quote scale to use for a universe given the palette's scale"""
-    return scale * MICRO if universe == "micro" else scale
+    return scale * UNIT_SCALE.get(universe, 1.0)
 
 
 def contracts_of(universe):
@@ -85,23 +90,25 @@ def alphabet(with_rebalance=True, nquotes=len(BASE_QUOTES), marks=True, ncontrac
 # reference ledger (exact arithmetic, written from the statement of C01/C05)
 
 class Ledger:
-    __slots__ = ("D", "I", "K", "pos")
+    __slots__ = ("D", "I", "K", "pos", "mag")
 
     def __init__(self, deposit, syms):
         self.D = Fr(deposit)
         self.I = Fr(0)
         self.K = Fr(0)
         self.pos = {s: (Fr(0), Fr(0)) for s in syms}   # sym -> (position, cost basis)
+        self.mag = {}                                   # sym -> largest quantity ever held or traded (scale of float rounding)
 
     def copy(self):
         o = Ledger.__new__(Ledger)
-        o.D, o.I, o.K, o.pos = self.D, self.I, self.K, dict(self.pos)
+        o.D, o.I, o.K, o.pos, o.mag = self.D, self.I, self.K, dict(self.pos), dict(self.mag)
         return o
 
     def trade(self, contract, dq, bid, ask, fixed, proportional):
         px = Fr(ask) if dq > 0 else Fr(bid)
         q, B = self.pos.get(contract.symbol, (Fr(0), Fr(0)))
         self.pos[contract.symbol] = (q + Fr(dq), B + Fr(dq) * px)
+        self.mag[contract.symbol] = max(self.mag.get(contract.symbol, 0.0), abs(float(q)), abs(float(dq)))
         self.K += Fr(fixed) + Fr(proportional) * abs(px * Fr(dq) * Fr(contract.multiplier))
 
     def nlv(self, exchange, contracts):
@@ -238,7 +245,9 @@ def observe(ob, ref, cs):
     hq = ob.holdings_quantity
     hm = ob.holdings_margins
     for c in cs:
-        if not fclose(hq.get(c, 0.0), ref.qty(c)):
+        # the implementation adds quantities in floats: a sum is exact only up to an ulp of its LARGEST operand (3.7e-9 for
+        # 2e7 units), so the tolerance also scales with the largest quantity this contract has been held or traded in
+        if not fclose(hq.get(c, 0.0), ref.qty(c)) and abs(float(hq.get(c, 0.0)) - float(ref.qty(c))) > 1e-12 * ref.mag.get(c.symbol, 0.0):
             problems.append(("C01", "position in %s is %r, ledger says %r" % (c.symbol, hq.get(c, 0.0), float(ref.qty(c)))))
     # C05: margin identity and decomposition at a valuation point
     total = Fr(float(hq.get(ob.base_currency, 0.0)))
